@@ -1,6 +1,7 @@
 package main
 
 import (
+	"encoding/json"
 	"fmt"
 	"os"
 	"strings"
@@ -25,7 +26,41 @@ func verPipes(v string) map[string]PipeDef {
 		env = map[string]string{"RV": "c", "RW": "x"}
 	}
 	script := []string{"echo ver=" + v + " rv=${RV-unset}", "sleep 0.25"}
-	return map[string]PipeDef{"r": {Concurrency: 1, Env: env, Tasks: map[string]TaskDef{"a": {Script: script}}}}
+	return map[string]PipeDef{"r": {Concurrency: verConc(v), Env: env, Tasks: map[string]TaskDef{"a": {Script: script}}}}
+}
+
+// the concurrency limit differs between the versions too (C01: a changed limit governs the jobs started after the change)
+func verConc(v string) int {
+	if v == "b" {
+		return 2
+	}
+	return 1
+}
+
+// executing jobs of pipeline r as the API reports them
+func (a *App) executing() int {
+	st, b, err := a.req("GET", "/pipelines/jobs", nil)
+	if err != nil || st != 200 {
+		return -1
+	}
+	var out struct {
+		Jobs []struct {
+			Pipeline  string     `json:"pipeline"`
+			Start     *time.Time `json:"start"`
+			Completed bool       `json:"completed"`
+			Canceled  bool       `json:"canceled"`
+		} `json:"jobs"`
+	}
+	if json.Unmarshal(b, &out) != nil {
+		return -1
+	}
+	n := 0
+	for _, j := range out.Jobs {
+		if j.Pipeline == "r" && j.Start != nil && !j.Completed && !j.Canceled {
+			n++
+		}
+	}
+	return n
 }
 
 func verOutput(v string) string {
@@ -96,8 +131,24 @@ func reloadRound(walk []string, round int) {
 			}
 		}
 		outRun, outQ := jobOutput(a, idRun), jobOutput(a, idQ)
+		// the limit in force: three requests at once, then the number of executing jobs is sampled
+		var burst []string
+		for k := 0; k < 3; k++ {
+			id, _, _ := a.Schedule("r", nil)
+			burst = append(burst, id)
+		}
+		maxExec := 0
+		for k := 0; k < 6; k++ {
+			if n := a.executing(); n > maxExec {
+				maxExec = n
+			}
+			time.Sleep(25 * time.Millisecond)
+		}
+		for _, id := range burst {
+			jobOutput(a, id)
+		}
 		rec := map[string]interface{}{"kind": "reload_step", "round": round, "step": step, "walk": walk, "from": cur, "to": next,
-			"running": outRun, "queued": outQ, "after": after, "tries": tries, "ok": true}
+			"running": outRun, "queued": outQ, "after": after, "tries": tries, "ok": true, "limit": verConc(next), "max_executing": maxExec}
 		var what []string
 		if outRun != verOutput(cur) {
 			what = append(what, fmt.Sprintf("the job running during the change %s->%s printed %q, accepted under %q", cur, next, outRun, verOutput(cur)))
@@ -108,6 +159,13 @@ func reloadRound(walk []string, round int) {
 		if after != verOutput(next) {
 			what = append(what, fmt.Sprintf("jobs accepted up to %d ms after the definitions changed %s->%s (walk %v) still print %q, expected %q",
 				300*8, cur, next, walk[:step+2], after, verOutput(next)))
+		}
+		if after == verOutput(next) && maxExec != verConc(next) {
+			// (only judged when the reload has demonstrably taken place)
+			lw := fmt.Sprintf("after the definitions changed %s->%s (walk %v) the concurrency limit is %d, but %d jobs of the pipeline executed at once out of 3 requested together",
+				cur, next, walk[:step+2], verConc(next), maxExec)
+			rec["limit_what"] = lw
+			what = append(what, lw)
 		}
 		if len(what) > 0 {
 			rec["ok"] = false
